@@ -26,8 +26,13 @@ Hypothesis adjoint : forall w v, pair (Ex w) v = pair w (L v).
 Variable ZM : V -> Prop.
 Hypothesis L_ZM : forall v, ZM v -> ZM (L v).
 Variable dm : W -> W.
-Hypothesis dm_pair : forall w v, ZM v -> pair (dm w) v = pair w v.
+(** well-shaped functions on the state space (e.g. arrays of the right shape, when W is a type of ragged lists): kept by expectation and demeaning *)
+Variable WF : W -> Prop.
+Hypothesis Ex_WF : forall w, WF w -> WF (Ex w).
+Hypothesis dm_WF : forall w, WF w -> WF (dm w).
+Hypothesis dm_pair : forall w v, WF w -> ZM v -> pair (dm w) v = pair w v.
 Variable w0 : W.
+Hypothesis w0_WF : WF w0.
 Variable V0 : Wb.
 Variable d0 : V.
 Variable y0 : R.
@@ -59,12 +64,15 @@ Proof. destruct k; cbn; [exact d0_ZM | apply gD_ZM]. Qed.
 Lemma iterW_shift n w : iterW' n (Ex w) = iterW' (S n) w.
 Proof. unfold iterW'. induction n as [|n IH]; [reflexivity|]. cbn [iterW]. rewrite IH. reflexivity. Qed.
 
+Lemma cE_WF t : WF (cE' t).
+Proof. induction t as [|t IH]; cbn [cE' cE]; [apply dm_WF; exact w0_WF | apply dm_WF, Ex_WF; exact IH]. Qed.
+
 (** demeaned expectation vectors act on zero-mass perturbations like the plain iterates *)
 Lemma cE_pair : forall t v, ZM v -> pair (cE' t) v = pair (iterW' t w0) v.
 Proof.
   induction t as [|t IH]; intros v Hv; cbn [cE' cE iterW' iterW].
-  - apply dm_pair; assumption.
-  - rewrite (dm_pair _ _ Hv). rewrite !adjoint. apply IH. apply L_ZM; assumption.
+  - apply dm_pair; [exact w0_WF | assumption].
+  - rewrite (dm_pair _ _ (Ex_WF _ (cE_WF t)) Hv). rewrite !adjoint. apply IH. apply L_ZM; assumption.
 Qed.
 
 (** Part 1 = the direct backward pass: at date t <= s a date-s shock produces the horizon (s - t) perturbations *)
